@@ -565,8 +565,9 @@ class Interp:
     # ------------------------------------------------------------------ calls
     def call_function(self, fi: FuncInfo, args: list, kwargs: dict, selfv: "V | None", closure: "dict | None", call: "ast.Call | None" = None, caller: "Frame | None" = None) -> V:
         if len(self.stack) > MAX_CALL_DEPTH or fi.fq in self.stack:
+            # what a recursive call computes is not known: it may depend on anything, in particular on the external options
             self.note(f"call of {fi.qualname} not followed (recursion / depth)")
-            return Unknown(f"{fi.name}(..)", self._taints(args, kwargs))
+            return Unknown(f"{fi.name}(..)", self._taints(args, kwargs) | {"EXT", "FLAG"})
         if fi.is_abstract:
             return Unknown(f"{fi.name}(..)", self._taints(args, kwargs))
         a = fi.node.args
